@@ -29,7 +29,7 @@ func (g *FuncGen) callCommon(cc *ssa.CallCommon, res ssa.Value, in ssa.Instructi
 	}
 	if cc.IsInvoke() {
 		recv := g.value(cc.Value)
-		name := fmt.Sprintf("(%s).%s", types.TypeString(cc.Value.Type(), nil), cc.Method.Name())
+		name := fmt.Sprintf("(%s).%s", types.TypeString(types.Unalias(cc.Value.Type()), nil), cc.Method.Name())
 		if ct := g.prog.Contracts[name]; ct != nil {
 			return g.applyContract(ct, cc.Method.Type().(*types.Signature), append([]Val{recv}, args...), true, res, in, name)
 		}
@@ -814,7 +814,7 @@ func (g *FuncGen) callWrites(cc *ssa.CallCommon) ([]string, bool) {
 	var ct *FuncContract
 	name := ""
 	if cc.IsInvoke() {
-		name = fmt.Sprintf("(%s).%s", types.TypeString(cc.Value.Type(), nil), cc.Method.Name())
+		name = fmt.Sprintf("(%s).%s", types.TypeString(types.Unalias(cc.Value.Type()), nil), cc.Method.Name())
 		ct = g.prog.Contracts[name]
 	} else if callee := cc.StaticCallee(); callee != nil {
 		name = callee.String()
@@ -947,6 +947,39 @@ func (g *FuncGen) runGhostAt(callee string, ord int, env *Env, results []Val) {
 		if ga.Ordinal != 0 && ga.Ordinal != ord {
 			continue
 		}
+		// ghost statements see the callee's parameters/results and, where not shadowed, the caller's parameters
+		genv := &Env{g: g, vars: map[string]Val{}, cur: g.cur, old: env.old, pkg: g.pkg}
+		for k, v := range g.params {
+			genv.vars[k] = v
+		}
+		for k, v := range env.vars {
+			genv.vars[k] = v
+		}
+		// ... and the caller's locals whose (single) definition dominates the call site
+		cb := g.curBlock
+		genv.look = func(name string) (Val, bool) {
+			var best *nameBinding
+			for i := range g.names[name] {
+				nb := &g.names[name][i]
+				vb := valueBlock(nb.val)
+				if nb.isAddr {
+					continue
+				}
+				if vb == nil || vb == cb || vb.Dominates(cb) {
+					if _, defined := g.vals[nb.val]; !defined && vb != nil {
+						continue
+					}
+					if best == nil || (valueBlock(best.val) != nil && vb != nil && valueBlock(best.val).Dominates(vb)) {
+						best = nb
+					}
+				}
+			}
+			if best == nil {
+				return Val{}, false
+			}
+			return g.value(best.val), true
+		}
+		env := genv
 		for _, st := range ga.Stmts {
 			switch st.Kind {
 			case "set":
